@@ -111,6 +111,7 @@ theorem BuiltRsp.not_exception {r : Response} {m : Spec.RspMeaning} (hb : BuiltR
   | writeSingleRegister a w => exact exc_decode_err_of_lt _ 0x06 rfl (by decide)
   | writeMultipleCoils a q => exact exc_decode_err_of_lt _ 0x0F rfl (by decide)
   | writeMultipleRegisters a q => exact exc_decode_err_of_lt _ 0x10 rfl (by decide)
+  | readExceptionStatus s => exact exc_decode_err_of_lt _ 0x07 rfl (by decide)
 
 /-- the MBAP length field of that image is exact -/
 theorem BuiltRsp.mbap_len {r : Response} {m : Spec.RspMeaning} (hb : BuiltRsp r m) (hf : m.fits)
